@@ -252,5 +252,6 @@ pub fn run(tier: Tier) -> i32 {
     let n_big = big.len();
     let m = SubsModel { table: t.clone(), bases: Arc::new(big), pool: Arc::new(pool), max_len: if tier.thorough() { 3 } else { 2 } };
     explore(m, &mut rep, "c11", &format!("{n_big} expressions with 3 leaves"));
+    crate::derived::run_derived(&mut rep, "C11", crate::derived::Focus::Subs, tier.thorough());
     rep.finish()
 }
